@@ -35,6 +35,15 @@ type Config struct {
 	BaseRH uint64   // root height at the start
 	// phase timeouts in virtual ms (index by lib.Phase ELECTION..COMMIT)
 	Timeouts [7]int
+	// NextPowers, when set, is the committee at every root height above BaseRH (0 = the validator left
+	// the committee): a root-chain update that is NOT committee-preserving. Only the message-level
+	// liveness search (C15) uses such configurations; C01 is stated for committee-preserving updates.
+	NextPowers []uint64
+	// GSTBump: the root chain advanced during the adversarial prefix; every node learns the new root
+	// height when the network heals (message-level liveness search only).
+	GSTBump bool
+	// Crashed validators never fire a timer and never receive a message.
+	Crashed []int
 }
 
 func (c Config) N() int { return len(c.Powers) }
@@ -148,6 +157,7 @@ type World struct {
 	TraceOn bool
 	silent  bool // tail mode: every message of the Byzantine node is lost
 	vs      *lib.ValidatorSet
+	vsNext  *lib.ValidatorSet
 	roundsBase []uint64 // rounds a node had started before its root-height bumps (rounds restart at 0 on a bump)
 }
 
@@ -195,11 +205,33 @@ func (c *mockCtl) LoadIsOwnRoot() bool           { return false }
 func (c *mockCtl) Syncing() *atomic.Bool         { return &c.syncing }
 func (c *mockCtl) ResetFSM()                     {}
 func (c *mockCtl) SendCertificateResultsTx(*lib.QuorumCertificate) {}
-func (c *mockCtl) LoadCommittee(_, _ uint64) (lib.ValidatorSet, lib.ErrorI) {
+func (c *mockCtl) LoadCommittee(_, rh uint64) (lib.ValidatorSet, lib.ErrorI) {
+	if c.w.Cfg.NextPowers != nil && rh > c.w.Cfg.BaseRH {
+		if c.w.vsNext == nil {
+			next := &lib.ConsensusValidators{}
+			for i, v := range c.w.Vals.ValidatorSet {
+				if p := c.w.Cfg.NextPowers[i]; p > 0 {
+					next.ValidatorSet = append(next.ValidatorSet, &lib.ConsensusValidator{PublicKey: v.PublicKey, VotingPower: p, NetAddress: v.NetAddress})
+				}
+			}
+			vs, err := lib.NewValidatorSet(next)
+			if err != nil {
+				return vs, err
+			}
+			c.w.vsNext = &vs
+		}
+		return *c.w.vsNext, nil
+	}
 	// committee-preserving root-chain updates: the same committee at every root height
 	// (one decoded set per world; every user copies MultiKey before mutating it)
 	if c.w.vs == nil {
-		vs, err := lib.NewValidatorSet(c.w.Vals)
+		base := &lib.ConsensusValidators{}
+		for _, v := range c.w.Vals.ValidatorSet {
+			if v.VotingPower > 0 {
+				base.ValidatorSet = append(base.ValidatorSet, v)
+			}
+		}
+		vs, err := lib.NewValidatorSet(base)
 		if err != nil {
 			return vs, err
 		}
@@ -254,8 +286,10 @@ func (c *mockCtl) SendToReplicas(replicas lib.ValidatorSet, msg lib.Signable) {
 		return
 	}
 	m := msg.(*bft.Message)
-	for i := range replicas.ValidatorSet.ValidatorSet {
-		c.w.enqueue(c.n.Idx, i, m, false)
+	for _, v := range replicas.ValidatorSet.ValidatorSet {
+		if to := c.w.IndexOf(v.PublicKey); to >= 0 {
+			c.w.enqueue(c.n.Idx, to, m, false)
+		}
 	}
 }
 
@@ -395,7 +429,25 @@ func (w *World) recordVote(signer int, m *bft.Message) {
 }
 
 // Live reports whether node i still takes part in this height.
-func (w *World) Live(i int) bool { return w.Nodes[i].Committed == nil }
+func (w *World) Live(i int) bool { return !w.Down(i) && w.Member(i) }
+
+// Down: committed this height already, or crashed (Config.Crashed).
+func (w *World) Down(i int) bool {
+	for _, c := range w.Cfg.Crashed {
+		if c == i {
+			return true
+		}
+	}
+	return w.Nodes[i].Committed != nil
+}
+
+// Member reports whether validator i is in the committee of the root height node i knows.
+func (w *World) Member(i int) bool {
+	if w.Cfg.NextPowers != nil && w.Nodes[i].ctl.rh > w.Cfg.BaseRH {
+		return w.Cfg.NextPowers[i] > 0
+	}
+	return w.Cfg.Powers[i] > 0
+}
 
 // Fire runs HandlePhase on node i exactly as BFT.Start's timer branch does and schedules the
 // node's next timer on the virtual clock with the implementation's own WaitTime.
@@ -453,10 +505,15 @@ func (w *World) Deliver(e *Envelope) lib.ErrorI {
 // BumpRoot delivers a committee-preserving root-chain update to node i: the NEW_COMMITTEE branch of BFT.Start.
 func (w *World) BumpRoot(i int, rh uint64) {
 	n := w.Nodes[i]
-	if !w.Live(i) {
+	if w.Down(i) {
 		return
 	}
 	n.ctl.rh = rh
+	if !w.Member(i) {
+		// no longer a validator: its controller stops consensus for this committee
+		w.tracef("bump n%d rh=%d: left the committee", i, rh)
+		return
+	}
 	w.roundsBase[i] += n.BFT.Round + 1
 	n.ctl.Lock()
 	n.BFT.NewHeight(true)
